@@ -245,8 +245,17 @@ class BridgeB2:
                     got = ex.call_function(f, [a, EnvMapping()], inline=True)
                     spec = ex.getattr(a, "specifier")
                     return (got, ex.contains(spec, ENV(a.fields["name"])))
+                def post(ex, v, a=a, o=o, rev=rev):
+                    # C03, atom level on string variables: packaging's _eval_op applies the *written* operator to (lhs, rhs) in the written order
+                    # (transcribed from packaging.markers._eval_op / _operators for keys that are not version-like; in / not in are substring tests)
+                    env, lit = ENV(a.fields["name"]), a.fields["value"]
+                    lhs, rhs = (lit, env) if rev else (env, lit)
+                    written = {"==": "==", "!=": "!=", "in": "in", "not in": "not in"}[o]      # these four are their own mirror image
+                    pk = {"==": lhs == rhs, "!=": lhs != rhs, "in": z3.Contains(rhs, lhs), "not in": z3.Not(z3.Contains(rhs, lhs))}[written]
+                    return [("bridge.B2.evaluate-equals-specifier-view", b(v[0]) == b(v[1])),
+                            ("C03.atom.evaluate-equals-packaging-eval-op", b(v[0]) == pk)]
                 yield {"name": f"{o}|reversed={rev}", "pre": [string_name(a.fields["name"])], "thunk": thunk,
-                       "post": (lambda ex, v: [("bridge.B2.evaluate-equals-specifier-view", b(v[0]) == b(v[1]))]), "args": (a,), "describe": describe}
+                       "post": post, "args": (a,), "describe": describe}
 
 
 def describe(m, args, result=None):
